@@ -133,6 +133,98 @@ def full_sig(sig, meth):
     return [[selfkind, SELF_NAME, None]] + [list(p) for p in sig]
 
 
+# ----------------------------------------------------------- streams beyond "one fresh function, small ints"
+# value codes understood by c07_impl.py: -1 None, -2 False, -3 '', -4 (), an int is itself
+SPECIAL_VALUES = [-1, 0, -2, -3, 7, -4]
+
+
+def special_defaults(sig, rot):
+    """the same signature with falsy/None defaults (pairwise distinct codes)"""
+    out, j = [], 0
+    for k, nm, d in sig:
+        if d is not None:
+            d = SPECIAL_VALUES[(j + rot) % len(SPECIAL_VALUES)]
+            j += 1
+        out.append([k, nm, d])
+    return out
+
+
+def value_stream(rng, sigs):
+    """every call shape of every signature, argument values drawn from {None, 0, False, '', 7, ()}:
+    all-None, a rotation through the set, and a seeded random choice"""
+    groups = []
+    for meth in (None, "pk", "po"):
+        for si, sig0 in enumerate(sigs):
+            if meth and len(sig0) > 2:
+                continue
+            sig = special_defaults(sig0, si)
+            calls = []
+            for ci, (pos, kw, _) in enumerate(calls_for(sig, meth)):
+                n = len(pos) + len(kw)
+                for variant in range(3):
+                    if variant == 0:
+                        vals = [-1] * n
+                    elif variant == 1:
+                        vals = [SPECIAL_VALUES[(ci + j) % len(SPECIAL_VALUES)] for j in range(n)]
+                    else:
+                        vals = [rng.choice(SPECIAL_VALUES) for _ in range(n)]
+                    calls.append([vals[:len(pos)], [[k, v] for (k, _), v in zip(kw, vals[len(pos):])], None])
+            groups.append({"sig": sig, "meth": meth, "calls": calls, "stream": "values"})
+    return groups
+
+
+def with_defaults(sig, mode, base):
+    """same kinds and names, other defaults (what another function object on the same code can have)"""
+    out = []
+    for i, (k, nm, d) in enumerate(sig):
+        if k in (VP, VK):
+            out.append([k, nm, None])
+        elif mode == "all":
+            out.append([k, nm, base + i])
+        elif mode == "none":
+            out.append([k, nm, None])
+        else:  # "shift": same parameters defaulted, other values
+            out.append([k, nm, None if d is None else base + i])
+    return out
+
+
+def share_families(sigs):
+    """functions sharing ONE code object but not their defaults, canonicalised alternately in one interpreter"""
+    groups = []
+    for meth in (None, "pk"):
+        for sig in sigs:
+            if not any(p[0] in (PO, PK, KO) for p in sig) or (meth and len(sig) > 2):
+                continue
+            fam = [sig, with_defaults(sig, "all", 400), with_defaults(sig, "none", 0), with_defaults(sig, "shift", 500)]
+            calls = []
+            for pos, kw, _ in calls_for(sig, meth):
+                for idx in (0, 1, 2, 3):  # the next shape starts with f0 again: f3 -> f0 is covered too
+                    calls.append([pos, kw, None, idx])
+            groups.append({"sig": sig, "meth": meth, "family": {"kind": "share", "sigs": fam}, "calls": calls,
+                           "stream": "shared-code"})
+    return groups
+
+
+def wraps_families(rng, sigs):
+    """different functions behind the same functools.wraps decorator, canonicalised alternately"""
+    groups = []
+    n = len(sigs)
+    for i, sig in enumerate(sigs):
+        fam = [sig, sigs[(7 * i + 3) % n], sigs[rng.randrange(n)]]
+        shapes = []
+        for sg in fam:
+            for pos, kw, _ in calls_for(sg, None):
+                if len(kw) <= 2 and not any(k in ("z", "a") for k, _ in kw):
+                    shapes.append((pos, kw))
+        calls = []
+        for pos, kw in shapes[:60]:
+            for idx in (0, 1, 2):
+                calls.append([pos, kw, None, idx])
+        groups.append({"sig": sig, "meth": None, "family": {"kind": "wraps", "sigs": fam}, "calls": calls,
+                       "stream": "wraps"})
+    return groups
+
+
 # ------------------------------------------------------------------- independent oracle, classes
 def canon_py(fsig, real):
     """canonical dict of Python's OWN binding (the result of really calling the function)"""
@@ -188,7 +280,10 @@ def oracle(sig, meth, pos, kw, ign, r):
         exp = {k: v for k, v in exp.items() if k not in ign}
     if r["fa"].get("ok") == exp:
         return None
-    return "filter_args gives %s, Python binds %s" % (json.dumps(r["fa"].get("ok", r["fa"])), json.dumps(exp))
+    txt = "filter_args gives %s, Python binds %s" % (json.dumps(r["fa"].get("ok", r["fa"])), json.dumps(exp))
+    if any(v < 0 for v in list(pos) + [v for _, v in kw]) or any((p[2] or 0) < 0 for p in sig):
+        txt += "  (value codes: -1 None, -2 False, -3 '', -4 ())"
+    return txt
 
 
 # ------------------------------------------------------------------------------- model encoding
@@ -209,13 +304,13 @@ def driver_line(sig, meth, pos, kw, ign):
 
 
 def coq_sig(sig):
-    return common.coq_list("mkParam %s %d %s" % (KIND_COQ[k], code(nm), "None" if d is None else "(Some %d)" % d)
+    return common.coq_list("mkParam %s %d %s" % (KIND_COQ[k], code(nm), "None" if d is None else "(Some %s)" % common.zlit(d))
                            for k, nm, d in sig)
 
 
 def coq_call(pos, kw):
-    return "(mkCall %s %s)" % (common.coq_list(map(str, pos)),
-                               common.coq_list("(%d, %d)" % (code(n), v) for n, v in kw))
+    return "(mkCall %s %s)" % (common.coq_list(map(common.zlit, pos)),
+                               common.coq_list("(%d, %s)" % (code(n), common.zlit(v)) for n, v in kw))
 
 
 def coq_expr(sig, meth, pos, kw, ign):
@@ -290,6 +385,16 @@ def ignore_variants(exp_keys):
     return out
 
 
+def case_sig(g, c):
+    """signature of the function a call of a group goes to"""
+    fam = g.get("family")
+    return fam["sigs"][c[3]] if fam else g["sig"]
+
+
+def case_src(r, c):
+    return r["srcs"][c[3]] if len(c) > 3 and "srcs" in r else r["src"]
+
+
 def case_obj(sig, meth, pos, kw, ign):
     return {"sig": sig, "meth": meth, "pos": pos, "kw": kw, "ign": ign}
 
@@ -317,15 +422,23 @@ def shard_worker(job):
         lines, index = [], []
         for gi, (g, r) in enumerate(zip(groups, results)):
             for ci, (c, rr) in enumerate(zip(g["calls"], r["res"])):
-                lines.append(driver_line(g["sig"], g["meth"], c[0], c[1], c[2]))
+                lines.append(driver_line(case_sig(g, c), g["meth"], c[0], c[1], c[2]))
                 index.append((gi, ci))
         models = run_driver(driver, lines) if lines else []
         for (gi, ci), m in zip(index, models):
             g, r = groups[gi], results[gi]
-            sig, meth = g["sig"], g["meth"]
-            pos, kw, ign = g["calls"][ci]
+            call = g["calls"][ci]
+            sig, meth = case_sig(g, call), g["meth"]
+            pos, kw, ign = call[0], call[1], call[2]
             rr = r["res"][ci]
             co = case_obj(sig, meth, pos, kw, ign)
+            r = dict(r, src=case_src(r, call))
+            if g.get("family"):
+                # the outcome may depend on what the interpreter canonicalised before: keep the history
+                co["group"] = {"meth": meth, "family": g["family"], "calls": g["calls"][max(0, ci - 11):ci + 1]}
+                count("family:" + g["family"]["kind"])
+            if g.get("stream"):
+                count("stream:" + g["stream"])
             S["cases"] += 1
             if keep_enc and (S["cases"] % keep_enc == 0):
                 S["enc"].append((co, m["enc"]))
@@ -407,6 +520,8 @@ def shard_worker(job):
         g2 = []
         for g, r in zip(groups, results):
             calls = []
+            if g.get("family") or g.get("stream"):
+                continue
             fs = full_sig(g["sig"], g["meth"])
             for c, rr in zip(g["calls"], r["res"]):
                 if rr["real"] is None:
@@ -438,6 +553,12 @@ WITNESSES = {
 
 
 def run_case_on_impl(c):
+    if c.get("group"):
+        # a call to one of several functions sharing a code object / a decorator: replay the recorded history
+        # in one interpreter and judge the last call
+        g = dict(c["group"], sig=c["sig"])
+        r = run_impl_groups([g])[0]
+        return case_src(r, g["calls"][-1]), r["res"][-1]
     g = {"sig": c["sig"], "meth": c["meth"], "calls": [[c["pos"], c["kw"], c["ign"]]]}
     r = run_impl_groups([g])[0]
     return r["src"], r["res"][0]
@@ -470,8 +591,13 @@ def run(ctx):
         "functions are created with exec from generated `def` lines; parameter values are distinct small integers",
         "modelled, not verified: inspect.signature/ismethod/isfunction, get_func_name (only used for messages)",
     ]
+    import time
+    phase = {}
+    t0 = time.time()
     proofs_ok = ctx.standard_proof_stage("C07", extra_targets=["Model/FilterArgsEnc.vo"],
                                          search=lambda: search_failing(ctx))
+    phase["proofs"] = round(time.time() - t0, 1)
+    t0 = time.time()
     drvdir = os.path.join(ctx.tmp, "drv")
     p = subprocess.run([os.path.join(common.ROOT, "ocaml", "c07", "build.sh"), drvdir], stdout=subprocess.PIPE,
                        stderr=subprocess.STDOUT, text=True)
@@ -479,6 +605,8 @@ def run(ctx):
     if p.returncode != 0 or not os.path.exists(driver):
         raise RuntimeError("ocaml/c07/build.sh failed: " + p.stdout[-2000:])
 
+    phase["extract+ocaml"] = round(time.time() - t0, 1)
+    t0 = time.time()
     # ---- cases
     groups = []
     corpus_path = os.path.join(common.ROOT, "corpus", "c07.jsonl")
@@ -502,6 +630,12 @@ def run(ctx):
         meth = ctx.rng.choice([None, None, "pk", "po"])
         sig = random_sig(ctx.rng, ctx.rng.randint(6, 8 if not meth else 7))
         groups.append({"sig": sig, "meth": meth, "calls": random_calls(ctx.rng, sig, meth, 8)})
+    small = wf_sigs(3)
+    n_before = sum(len(g["calls"]) for g in groups)
+    groups += value_stream(ctx.rng, small)
+    groups += share_families(small)
+    groups += wraps_families(ctx.rng, small)
+    n_streams = sum(len(g["calls"]) for g in groups) - n_before
     # partial objects: filter_args does not look at the signature at all
     pgroups = [{"sig": sig, "meth": None, "partial": True, "calls": list(calls_for(sig, None))[:40]}
                for sig in sigs[:40]]
@@ -521,6 +655,8 @@ def run(ctx):
     with multiprocessing.get_context("fork").Pool(min(common.NCPU, len(jobs))) as pool:
         sums = pool.map(shard_worker, jobs, chunksize=1)
 
+    phase["shards"] = round(time.time() - t0, 1)
+    t0 = time.time()
     # ---- partial objects (opaque branch)
     opaque_bad = []
     n_opaque = 0
@@ -566,6 +702,7 @@ def run(ctx):
     enc = enc[: (400 if quick else 6000)]
     vals = ctx.coq_eval_lines(REQ, "", [coq_expr(c["sig"], c["meth"], c["pos"], c["kw"], c["ign"]) for c, _ in enc],
                               name="c07_vm")
+    phase["in-coq cross-check"] = round(time.time() - t0, 1)
     extraction_bad = []
     for (c, e), v in zip(enc, vals):
         got = [int(x.strip().strip("()")) for x in v.replace("%Z", "").strip().strip("[]").split(";") if x.strip()]
@@ -619,13 +756,20 @@ def run(ctx):
                 "counts as a parameter), x calls with 0..#positional+2 positionals x every subset of named parameters "
                 "by keyword x {no, 1, 2 surplus keywords (+ a keyword named like self for methods)}; ignore-list "
                 "variants (each key, all keys, two keys, unknown key, duplicate key) of %s accepted calls; %d random "
-                "signatures with 6-8 parameters x 8 calls; %d calls through functools.partial. distinct_nontrivial = "
+                "signatures with 6-8 parameters x 8 calls; %d calls through functools.partial; over all signatures with <= 3 "
+                "parameters additionally: (values) every call shape with arguments and defaults drawn from {None, 0, "
+                "False, '', 7, ()} (all-None, rotation, seeded random); (shared-code) four function objects on ONE code "
+                "object with different __defaults__/__kwdefaults__, plain and as methods, every call shape on f0,f1,f2,"
+                "f3,f0,... alternately in one interpreter; (wraps) triples of different functions behind one functools.wraps "
+                "decorator called alternately. distinct_nontrivial = "
                 "calls Python accepts that lie in the fragment of C07_agree_partial (all enumerated cases are "
                 "distinct by construction)" % (maxn, len(sigs), "all" if with_ignore >= 1 else "35% of the",
                                                n_rand_sigs, n_opaque),
         "samples": samples[:3],
         "traces_validated_against_impl": tot["cases"],
+        "phase_seconds": phase,
         "exhaustive_cases": n_exh,
+        "stream_cases_values_sharedcode_wraps": n_streams,
         "corpus_and_witness_cases": n_corpus,
         "accepted_by_python": tot["accepted"],
         "ignore_list_cases": tot["ignore_cases"],
